@@ -21,8 +21,12 @@ class SchedAdapter:
     def __init__(self, desc, targets, props, reqs=2, mode='ample',
                  req_menu=None, outcomes=OUTCOMES, max_workers=2,
                  max_copies=2, double_reply=False, revs=None, life=False, poll=False,
-                 max_life=2):
-        self.w = PipeWorld(desc, targets, mode=mode)
+                 max_life=2, clock_at=None, max_timers=0):
+        import datetime
+        if isinstance(clock_at, str):
+            clock_at = datetime.datetime.fromisoformat(clock_at)
+        self.max_timers = max_timers
+        self.w = PipeWorld(desc, targets, mode=mode, clock_at=clock_at)
         self.eng = self.w.eng
         self.props = set(props)
         self.reqs = reqs
@@ -168,6 +172,9 @@ class SchedAdapter:
                     evs.append(('reg',) if len(self.revs) == 1 else ('reg', rev))
             for i in range(len(s['workers'])):
                 evs.append(('drop', i))
+        if self.max_timers and s.get('timed') and s['timed']['timers'] \
+                and s['mon'].get('ntimer', 0) < self.max_timers:
+            evs.append(('timer',))
         if self.poll:
             for rev in self.revs:
                 evs.append(('poll', rev))
@@ -197,6 +204,8 @@ class SchedAdapter:
             w.ev_reply(idx[0], o, new)
         elif kind == 'reg':
             w.ev_reg(ev[1] if len(ev) > 1 else None)
+        elif kind == 'timer':
+            w.ev_timer()
         elif kind == 'poll':
             w.ev_poll(ev[1])
         elif kind == 'life':
@@ -324,8 +333,21 @@ class SchedAdapter:
             self.mon_c05(s, ev, before, after, report)
         if 'C11' in self.props:
             self.mon_c11(mon, s, ev, ns, report)
+            # the latest triggering event of every node and the run id it carried
+            trig = dict(mon.get('trig', ()))
+            for e in self.log:
+                if e[0] == 'organize':
+                    for name in e[1]:
+                        trig[name] = e[2]
+            if ev[0] == 'timer':
+                for tag in after:
+                    if set(after[tag][0]) - set(before[tag][0]):
+                        trig[tag] = None    # a timer event carries no run id
+            mon['trig'] = tuple(sorted(trig.items()))
         if ev[0] == 'life':
             mon['life'] = mon.get('life', 0) + 1
+        if ev[0] == 'timer':
+            mon['ntimer'] = mon.get('ntimer', 0) + 1
         return mon
 
     # ---- C01
@@ -547,12 +569,16 @@ class SchedAdapter:
                     for tag, do in e[1]:
                         rid_before = dict((t, r) for t, _a, _b, _c, _st, r, _e in s['nodes']).get(tag)
                         carried = rid_before
+                        trig = dict(s['mon'].get('trig', ()))
+                        if tag in trig:
+                            carried = trig[tag]     # what the latest triggering event carried
                         kind = self.eng.kind(tag)
                         if carried is None:
                             want_next += 1
                         for t in do:
                             got = puts.get((tag, t if kind != 'analysis' else '__all__'), [None])[0]
-                            exp = 0 if kind == 'regress' else (carried if carried is not None else w.store_next)
+                            fresh = w.store_next + s.get('nexts', 0) + want_next - 1
+                            exp = 0 if kind == 'regress' else (carried if carried is not None else fresh)
                             if got != exp:
                                 report('C11/run-id/' + ('reused-instead-of-fresh' if carried is None else 'not-the-carried-id'),
                                        f'{tag}[{t}] released with run id {got}, expected {exp} '
